@@ -44,6 +44,14 @@ CHECKS = {
    text="1-4 caller tasks x 1-3 calls each of every Once form (Worker/Operation/Producer/Processor/Handler/Future.Once, adt.Once Resolve and Do, adt.Mnemonize, ft.Once, ft.OnceDo), every Limit(n) form and every Lock form around a wrapped function that records enter/exit stamps and yields in the middle; oracles: one execution, no caller returns before its exit stamp, all callers see its value/error; exactly min(n, calls) executions and the last result afterwards; no two [enter, exit] intervals overlap. A second family checks that the waiters of Operation/Worker Signal, Launch, Background, StartGroup and Processor.Background return only after the background function's exit stamp and carry its error. Retry(n), Join and Pre/PostHook order are single-task reference checks run through the same tape/replay machinery.",
    note="The Retry/Join/hook sub-cases have one task and no faults: for them this is seeded generation against an independent reference, the simulator adds only replay and shrinking.",
    tech=TECH + "; invocation-counter / overlap-gauge / completion-stamp oracles"),
+ "C08": dict(cat="exploration", ref="§2 C08",
+   text="1-3 publishers x 1-4 messages (bursts or paced), 1-3 subscribers that subscribe after tape-chosen delays, receive continuously and (some) call Unsubscribe at a tape-chosen step but keep draining, over channel / unlimited Queue / unlimited Deque / bounded Queue / bounded Deque / LIFO brokers with ParallelDispatch, 1-3 dispatch workers and subscription buffers 0-2, under seeded schedules. Every configuration: each delivered value was published and no subscriber receives a publication twice. Lossless configurations at quiescence: every message published after Subscribe returned and whose Publish returned before Unsubscribe was called is delivered exactly once; with one dispatch worker every pair of subscribers agrees on the order of common messages and each publisher's order is kept.",
+   note="The Unsubscribe window is read literally from the statement; the three resulting violations are listed as open known findings (not small to repair). Runs over Deque back-ends with two or more dispatch workers livelock inside Deque.wait and are budget-inconclusive (safety clauses are still judged on them).",
+   tech=TECH + "; per-subscriber exactly-once / order oracle over recorded deliveries"),
+ "C09": dict(cat="fault_enumeration", ref="§2 C09",
+   text="The C08 workload plus Stats callers and faults: Stop or parent-context cancel at a tape-chosen step (idle, mid-dispatch, mid-publish, with backlog), caller-context cancellation inside Publish / Subscribe / Unsubscribe / Stats, Wait started before as well as after Stop, subscribers that stop receiving once Unsubscribe returned. While the broker is live and subscribers receive, quiescence must show no pending Publish/Subscribe/Unsubscribe/Stats and complete delivery; after Stop/cancel: Stop returned, Wait returned, every caller returned once its own context was cancelled, and no task spawned inside pubsub/fun is alive.",
+   note="Same Deque livelock limitation as C08. The delivery clause for subscribers that unsubscribed belongs to C08 and is not re-judged here.",
+   tech=TECH + "; fault families (stop/cancel/stats-cancel/wait-order) with quiescence and task-table oracles"),
 }
 NA = [
  ("C16", "dt.List/dt.Stack are single-goroutine data structures: the property quantifies over operation sequences only; there is no schedule, clock, fault or interleaving for a simulator to own (pure model-based testing target)."),
